@@ -30,7 +30,7 @@ void generate(Rng& r, Workload& w, int tier) {
     w.cfg = {int64_t(r.below(2)), threads, int64_t(r.below(2)), r.range(0, 3), int64_t(r.below(2)),
              r.chance(1, 8) ? 1 : 0, int64_t(r.below(2)),
              r.chance(2, 3) ? 0 : r.range(1, 2)};   // range kind: 0 vector, 1 deque, 2 reverse iterators
-    int nmax = tier ? 96 : 64;
+    int nmax = tier ? 300 : 64;
     int n;
     uint64_t k = r.below(10);
     if (k < 2) n = int(r.range(0, 3));
